@@ -83,6 +83,19 @@ theorem abandon_terminates (c : Cfg) (s : State) (hc : s.main = .consuming) :
     (∀ s', s'.main = .fin → enabled c s' .mDone = true) ∧
     outcome (step c (step c s .cAbandon) .mDone) = .closed s.recv := abandon_terminates' c s hc
 
+/-- stronger: in ANY `consuming` state the caller's own steps alone (`finishSeq`: give up, drain both queues, return) are a
+possible schedule — no other thread has to move; when it returns both queues are empty (no queue keeps a reference to an
+item or output), nothing is raised, the workers are left exactly as they were: none of them can take anything any more, and
+those waiting on the in-queue are parked (the real code leaves them as daemon processes until the parent exits) -/
+theorem abandon_returns (c : Cfg) (s : State) (hc : s.main = .consuming) :
+    ∃ s', runTrace c s (finishSeq s) = some s' ∧ s'.main = .done ∧ s'.inq = [] ∧ s'.outq = []
+      ∧ outcome s' = .closed s.recv ∧ s'.ws = s.ws ∧ (∀ w, enabled c s' (.wGet w) = false)
+      ∧ (∀ w k, s.ws[w]? = some (.run k [] none) → mayTake c k = true → parked c s' w = true) :=
+  abandon_returns' c s hc
+
+/-- `commState` (a worker busy, an item queued, the caller consuming) is such a state -/
+example : commState.main = .consuming ∧ commState.inq.length = 0 ∧ (finishSeq commState).length = 2 := by decide
+
 /-! ### maxtasksperchild -/
 
 /-- with `maxtasksperchild = m > 0` no worker process has ever taken more than `m` items -/
